@@ -190,23 +190,23 @@ macro_rules! c04 {
 
 //@ prop=C04,C03 tier=quick mem=3 timeout=1200 inst="f64::remove_nan_mut, stride 2 at offset 1 (9-cell buffer)" bounds="len 4, every bit pattern / NaN placement; unwind 10"
 c04!(c04_f64_step2_l4, f64, 9, 4, 1, 10);
-//@ prop=C04,C03 tier=quick mem=3 timeout=1200 inst="f32::remove_nan_mut, reversed stride 2 (9-cell buffer)" bounds="len 4; unwind 10"
+//@ prop=C04,C03:thorough tier=quick mem=3 timeout=1200 inst="f32::remove_nan_mut, reversed stride 2 (9-cell buffer)" bounds="len 4; unwind 10"
 c04!(c04_f32_revstep2_l4, f32, 9, 4, 4, 10);
 //@ prop=C04,C03 tier=quick mem=3 timeout=1200 inst="Option<i8>::remove_nan_mut, reversed stride 2 (9-cell buffer)" bounds="len 4, every None placement; unwind 10"
 c04!(c04_opt_i8_revstep2_l4, Option<i8>, 9, 4, 4, 10);
-//@ prop=C04,C03 tier=quick mem=3 timeout=1200 inst="Option<i32>::remove_nan_mut, stride 2 at offset 1 (9-cell buffer)" bounds="len 4; unwind 10"
+//@ prop=C04,C03:thorough tier=quick mem=3 timeout=1200 inst="Option<i32>::remove_nan_mut, stride 2 at offset 1 (9-cell buffer)" bounds="len 4; unwind 10"
 c04!(c04_opt_i32_step2_l4, Option<i32>, 9, 4, 1, 10);
-//@ prop=C04,C03 tier=quick mem=3 timeout=1200 inst="Option<i8>::remove_nan_mut, reversed unit stride" bounds="len 3; unwind 6"
+//@ prop=C04,C03:thorough tier=quick mem=3 timeout=1200 inst="Option<i8>::remove_nan_mut, reversed unit stride" bounds="len 3; unwind 6"
 c04!(c04_opt_i8_rev_l3, Option<i8>, 3, 3, 3, 6);
-//@ prop=C04,C03 tier=quick mem=3 timeout=1200 inst="Option<u16>::remove_nan_mut, stride 3 at offset 2 (12-cell buffer)" bounds="len 3; unwind 13"
+//@ prop=C04,C03:thorough tier=quick mem=3 timeout=1200 inst="Option<u16>::remove_nan_mut, stride 3 at offset 2 (12-cell buffer)" bounds="len 3; unwind 13"
 c04!(c04_opt_u16_step3_l3, Option<u16>, 12, 3, 2, 13);
-//@ prop=C04,C03 tier=quick mem=3 timeout=1200 inst="Option<N64>::remove_nan_mut, reversed stride 2 (7-cell buffer)" bounds="len 3; unwind 8"
+//@ prop=C04,C03:thorough tier=quick mem=3 timeout=1200 inst="Option<N64>::remove_nan_mut, reversed stride 2 (7-cell buffer)" bounds="len 3; unwind 8"
 c04!(c04_opt_n64_revstep2_l3, Option<N64>, 7, 3, 4, 8);
-//@ prop=C04,C03 tier=quick mem=2 timeout=900 inst="Option<i8>::remove_nan_mut, stride 2, single element" bounds="len 1; unwind 5"
+//@ prop=C04,C03:thorough tier=quick mem=2 timeout=900 inst="Option<i8>::remove_nan_mut, stride 2, single element" bounds="len 1; unwind 5"
 c04!(c04_opt_i8_step2_l1, Option<i8>, 3, 1, 1, 5);
-//@ prop=C04,C03 tier=quick mem=2 timeout=900 inst="f64::remove_nan_mut on an empty view" bounds="len 0; unwind 5"
+//@ prop=C04,C03:thorough tier=quick mem=2 timeout=900 inst="f64::remove_nan_mut on an empty view" bounds="len 0; unwind 5"
 c04!(c04_f64_unit_l0, f64, 3, 0, 0, 5);
-//@ prop=C04,C03 tier=quick mem=3 timeout=1200 inst="f64::remove_nan_mut, unit stride" bounds="len 4; unwind 6"
+//@ prop=C04,C03:thorough tier=quick mem=3 timeout=1200 inst="f64::remove_nan_mut, unit stride" bounds="len 4; unwind 6"
 c04!(c04_f64_unit_l4, f64, 4, 4, 0, 6);
 
 // thorough: the remaining MaybeNan impls and more geometries
